@@ -201,7 +201,7 @@ func init() { reg("C05replay", runC05) }
 
 func TestProp_C05_Replay(t *testing.T) {
 	defer sim.MarkCompleted("C05replay", false)
-	kinds := []string{"pp", "pp", "pp", "send", "send", "dl", "dl", "dl", "dup", "dup", "replay", "replay", "replay", "replay", "replayall", "replayall", "rekey", "smp", "ans", "xk", "age", "flush"}
+	kinds := []string{"pp", "pp", "pp", "send", "send", "dl", "dl", "dl", "dup", "dup", "replay", "replay", "replay", "replay", "replayall", "replayall", "rekey", "smp", "ans", "xk", "age", "flush", "fault", "fault"}
 	rapid.Check(t, func(rt *rapid.T) {
 		sc := &SessScript{Cfg: genSessCfg(rt)}
 		n := rapid.IntRange(2, 40).Draw(rt, "nops")
@@ -210,6 +210,10 @@ func TestProp_C05_Replay(t *testing.T) {
 			if op.K == "replay" {
 				op.I = rapid.IntRange(0, 40).Draw(rt, "ri")
 				op.X = rapid.IntRange(0, 1).Draw(rt, "rx")
+			}
+			if op.K == "fault" {
+				// in a running session randomness is read at rotations: the very next reads are the ones that matter
+				op.X = op.X % 3
 			}
 			sc.Ops = append(sc.Ops, op)
 		}
